@@ -1,4 +1,5 @@
 import RlModel.Lemmas.StoreCrash
+import RlModel.Gen.ManifestOps
 /-!
 # C04 — a crash at any instant leaves a recoverable, atomic, durable database
 
@@ -369,6 +370,97 @@ theorem recover_recover (d : Disk) (s : State) (h : recover d = .ok s) :
       exact ⟨fun x hx => h0.1.1 x hx, fun x hx => h0.1.2 x hx⟩
     exact (abs_agree hag).symm
 
+/-! ## histories (induction over every sequence of statements) -/
+
+/-- The steps of a logging statement are its write-ahead steps followed by one manifest append. -/
+theorem psteps_of_txn (s : State) (op : Op) (es : List Rec) (h : txnOf s op = some es) :
+    psteps s op = stmtSteps (dataSteps s op) es := by
+  cases op with
+  | reopen => simp [txnOf] at h
+  | vacuum => simp [txnOf] at h
+  | create name n => simp only [psteps, h, stmtSteps]
+  | drop name => simp only [psteps, h, stmtSteps]
+  | insert name rows => simp only [psteps, h, stmtSteps]
+  | delete name c k => simp only [psteps, h, stmtSteps]
+  | compact name => simp only [psteps, h, stmtSteps]
+
+theorem applyAll_stmtSteps_recs (d : Disk) (data : List PStep) (es : List Rec)
+    (hf : ∀ x ∈ data, Fresh View.empty x) :
+    (d.applyAll (stmtSteps data es)).recs = d.recs ++ ([Rec.begin] ++ es ++ [Rec.fin]) := by
+  have h := agree_applyAll_fresh View.empty data hf d
+  have : (d.applyAll (stmtSteps data es)).recs = (d.applyAll data).recs ++ ([Rec.begin] ++ es ++ [Rec.fin]) := by
+    simp [stmtSteps, Disk.applyAll, List.foldl_append, Disk.apply]
+  rw [this, h.2.1]
+
+/-- One acknowledged statement — create, drop, insert, delete, compaction, vacuum, or a clean
+reopen — keeps the log balanced. -/
+theorem step_balanced (s : State) (op : Op) (hb : Balanced s.disk.recs) : Balanced (step s op).disk.recs := by
+  by_cases hre : op = .reopen
+  · subst hre
+    simp only [step]
+    cases hr : recover s.disk with
+    | error e => exact hb
+    | ok s' =>
+      simp only
+      unfold recover at hr
+      cases hv : view s.disk with
+      | error e => simp [hv] at hr
+      | ok v =>
+        simp only [hv] at hr
+        cases hr
+        rw [applyAll_recoverSteps]
+        exact rewriteRecs_balanced v (canon_of_view hv)
+  by_cases hva : op = .vacuum
+  · subst hva
+    simp only [step, psteps]
+    have hf : ∀ x ∈ s.pending.map (fun x => PStep.rmdir x.1 x.2), Fresh View.empty x := by
+      intro x hx
+      simp only [List.mem_map] at hx
+      obtain ⟨y, _, rfl⟩ := hx
+      exact fresh_empty_rmdir _ _
+    rw [(agree_applyAll_fresh View.empty _ hf s.disk).2.1]
+    exact hb
+  -- a logging statement
+  have hstep : (step s op).disk.recs = s.disk.recs ∨
+      ∃ es, txnOf s op = some es ∧ (step s op).disk.recs = s.disk.recs ++ ([Rec.begin] ++ es ++ [Rec.fin]) := by
+    cases htx : txnOf s op with
+    | none => left; cases op <;> simp_all [step]
+    | some es =>
+      cases hap : s.mem.applyRecs es with
+      | error e => left; cases op <;> simp_all [step]
+      | ok v =>
+        right
+        refine ⟨es, rfl, ?_⟩
+        have : (step s op).disk = s.disk.applyAll (psteps s op) := by
+          cases op <;> simp_all [step]
+        rw [this, psteps_of_txn s op es htx]
+        exact applyAll_stmtSteps_recs s.disk (dataSteps s op) es (dataSteps_fresh_empty s op)
+  rcases hstep with h | ⟨es, htx, h⟩
+  · rw [h]; exact hb
+  · rw [h]; exact (replay_append_txn s.disk.recs es hb (txnOf_nonbracket s op es htx)).2
+
+/-- **Induction over histories**: after any sequence of statements, of any length, starting from a
+balanced log (e.g. a fresh bootstrap), the log is balanced — the hypothesis `Balanced` of
+`crash_atomic` / `crash_durable` holds in every reachable state. -/
+theorem run_balanced (s : State) (ops : List Op) (hb : Balanced s.disk.recs) : Balanced (run s ops).disk.recs := by
+  induction ops generalizing s with
+  | nil => exact hb
+  | cons op ops ih =>
+    simp only [run, List.foldl_cons]
+    exact ih (step s op) (step_balanced s op hb)
+
+/-- **Durability over histories**: for every history `ops`, every next logging statement `op`,
+every crash position and every progress of the write in flight (torn or not), the operations
+replayed from the crash image extend those the history committed — nothing acknowledged is lost
+or reordered. -/
+theorem crash_durable_history (s0 : State) (hb : Balanced s0.disk.recs) (ops : List Op) (op : Op)
+    (es : List Rec) (htx : txnOf (run s0 ops) op = some es) (k : Nat) (p : Option Progress) :
+    replay (run s0 ops).disk.recs <+:
+      replay (crash (run s0 ops).disk (psteps (run s0 ops) op) k p).recs := by
+  rw [psteps_of_txn _ op es htx]
+  exact crash_durable (run s0 ops).disk View.empty (dataSteps (run s0 ops) op) es k p
+    (run_balanced s0 ops hb) (dataSteps_fresh_empty _ op) (txnOf_nonbracket _ op es htx)
+
 /-! ## background vacuum -/
 
 /-- The vacuum task only unlinks directories nothing references: a crash anywhere among its
@@ -521,6 +613,27 @@ theorem post_recovery_accepts_regression :
     orphanRecovered.disk.dvfiles = [] ∧
     allEnabled orphanRecovered.disk (psteps orphanRecovered (.delete "t" .ge 3)) = true := ⟨rfl, by decide, by decide⟩
 
+/-! ## translator tie: the manifest record kinds are those of the source -/
+
+/-- Name of the `ManifestOperation` variant a model record stands for. -/
+def Crash.Rec.kindName : Rec → String
+  | .createTable _ _ => "CreateTable" | .dropTable _ => "DropTable"
+  | .addRowSet _ _ => "AddRowSet" | .deleteRowSet _ _ => "DeleteRowSet"
+  | .addDV _ _ _ => "AddDV" | .deleteDV _ _ _ => "DeleteDV"
+  | .begin => "Begin" | .fin => "End"
+
+/-- The model's record kinds, one representative per constructor of `Rec`, in source order. -/
+def Crash.recKinds : List String :=
+  [Rec.createTable "" 0, .dropTable 0, .addRowSet 0 0, .deleteRowSet 0 0, .addDV 0 0 0, .deleteDV 0 0 0, .begin, .fin].map Rec.kindName
+
+/-- The model has exactly the record kinds `enum ManifestOperation` has in the source of this run
+(`Gen.manifestOps` is regenerated from manifest.rs by the check). -/
+theorem manifest_ops_match : recKinds = Gen.manifestOps := by decide
+
+/-- …and every model record is of one of them. -/
+theorem rec_kind_listed (r : Rec) : r.kindName ∈ Gen.manifestOps := by
+  cases r <;> simp [Rec.kindName, Gen.manifestOps]
+
 /-! ## non-vacuity -/
 
 example : view tornWitness = .ok ⟨[⟨"t", 0, 2⟩], 1, [.createTable "t" 2], [], [], 0, 0⟩ := rfl
@@ -530,5 +643,11 @@ example : Fresh orphanDvState.mem (.writeDv 0 0 0 [1]) := by simp [Fresh, orphan
 example : (recoverPrefix orphanDvState.disk orphanDvState.mem).length = 2 := by decide
 example : (orphanDvs (crash orphanDvState.disk (psteps orphanDvState (.delete "t" .ge 3)) 1 none) orphanDvState.mem).length = 1 := by decide
 example : loseRename lostRenameState.disk ≠ lostRenameState.disk := by decide
+/-- the hypotheses of `run_balanced` / `crash_durable_history` are met by a fresh bootstrap and a
+history that creates a table, inserts, and is then interrupted in a DELETE -/
+def bootState : State := match recover Disk.empty with | .ok s => s | .error _ => ⟨Disk.empty, View.empty, []⟩
+example : recover Disk.empty = .ok bootState := rfl
+example : Balanced bootState.disk.recs := rfl
+example : txnOf (run bootState [.create "t" 2, .insert "t" [[1, 2], [3, 4]]]) (.delete "t" .ge 3) = some [.addDV 0 0 0] := by decide
 
 end RlModel
